@@ -397,8 +397,20 @@ func ruleCloseOnce(c *Check, p *Program, rule string) {
 		}
 		// loop head: the block containing the queue receive
 		head := recv.Block()
+		// a return taken because the queue itself was closed (the ok result of the same receive is false) has no
+		// per-block channel to close
+		queueClosed := func(b *ssa.BasicBlock) bool {
+			for _, l := range guardsOf(b) {
+				if ex, ok := l.Cond.(*ssa.Extract); ok && ex.Index == 1 && !l.Val {
+					if ex0, isE := ch.(*ssa.Extract); isE && ex0.Tuple == ex.Tuple {
+						return true
+					}
+				}
+			}
+			return false
+		}
 		atHead := func(in ssa.Instruction) bool {
-			return (in.Block() == head && idxOf(in) == 0) || isReturn(in)
+			return (in.Block() == head && idxOf(in) == 0) || (isReturn(in) && !queueClosed(in.Block()))
 		}
 		miss, _ := reachAvoid(fn, recv, atHead, closes)
 		// twice: from a close, another close before returning to the head
@@ -647,6 +659,27 @@ func ruleHandOff(c *Check, p *Program, rule string) {
 			})
 			ok := false
 			why := "no loop-carried buffer found"
+			if ph == nil {
+				// the buffer variable lives in a cell (it is captured by a function literal): decide the weaker,
+				// shape-independent form: a fresh buffer is drawn from the pool after the hand-over, in
+				// concurrent mode, before the source is read again
+				for _, cj := range callsIn(rf) {
+					if !calleeIs(cj, pkgBlock, "BlockSizeIndex.Get") || cj == ci {
+						continue
+					}
+					conc := false
+					for _, a := range atomsOfBlock(cj.Block()) {
+						if a.Kind == "call" && strings.HasSuffix(a.Name, "isNotConcurrent") && !a.Val {
+							conc = true
+						}
+					}
+					after, _ := reachAvoid(rf, ci.(ssa.Instruction), func(in ssa.Instruction) bool { return in == cj.(ssa.Instruction) }, nil)
+					if conc && after {
+						ok = true
+					}
+				}
+				why = "no fresh pool buffer is taken in concurrent mode after the hand-over"
+			}
 			if ph != nil {
 				ok = true
 				for i, e := range ph.Edges {
@@ -951,17 +984,33 @@ func ruleReaderShutdown(c *Check, p *Program, rule string) {
 	if ir == nil {
 		return
 	}
+	// the two long-lived goroutines of the pipeline: the one that reads blocks from the source (directly or in a
+	// helper) and the one that receives the per-block channels from the queue (a channel of channels)
 	var readerLoop, collector *ssa.Function
-	for _, fn := range familyFns(ir)[1:] {
-		for _, ci := range callsIn(fn) {
+	for _, fn := range goroutinesOf(ir) {
+		if fn.Parent() != ir && fn.Parent() != nil {
+			continue // per-block workers started inside the reader goroutine
+		}
+		for _, ci := range callsInDeep(fn) {
 			if calleeIs(ci, pkgStream, "FrameDataBlock.Read") {
 				readerLoop = fn
 			}
 		}
-		allInstrs(fn, func(in ssa.Instruction) {
-			if d, ok := in.(*ssa.Defer); ok {
-				if b, isB := d.Call.Value.(*ssa.Builtin); isB && b.Name() == "close" {
-					collector = fn
+		allInstrsDeep(fn, func(in ssa.Instruction) {
+			if u, ok := in.(*ssa.UnOp); ok && u.Op == token.ARROW {
+				if ch, isCh := u.X.Type().Underlying().(*types.Chan); isCh {
+					if _, inner := ch.Elem().Underlying().(*types.Chan); inner && fn != readerLoop {
+						collector = fn
+					}
+				}
+			}
+			if nx, ok := in.(*ssa.Next); ok && !nx.IsString {
+				if rg, isR := nx.Iter.(*ssa.Range); isR {
+					if ch, isCh := rg.X.Type().Underlying().(*types.Chan); isCh {
+						if _, inner := ch.Elem().Underlying().(*types.Chan); inner && fn != readerLoop {
+							collector = fn
+						}
+					}
 				}
 			}
 		})
